@@ -32,7 +32,7 @@ func init() { props["C03"] = runC03 }
 // `safefix` / `repaired` for self-tests against a patched copy (VERIF_REPO=… VERIF_C03_MODEL=safefix).
 func c03Model() string {
 	switch m := os.Getenv("VERIF_C03_MODEL"); m {
-	case "safefix", "safefix2", "safefix3", "repaired", "aswas":
+	case "safefix", "safefix2", "safefix3", "safefix4", "repaired", "aswas":
 		return m
 	}
 	return "asis"
@@ -444,7 +444,7 @@ func (g *c03gen) nestedTop(depth int) string {
 // the error paths of the checker — which error is reported first, where, and how the tree is annotated.
 func (g *c03gen) untyped(d int) string {
 	atoms := []string{"I", "I8", "U64", "F64", "F32", "B", "Str", "Any", "Ints", "Strs", "Anys", "Arr", "MSI", "MII", "St", "PSt", "Sts", "My",
-		"Fi", "Mi", "Amb", "PPSt", "Sg", "Zs", "Nope", "1", "2", "0", "1.5", "\"a\"", "\"k\"", "true", "false", "nil"}
+		"Fi", "Mi", "Amb", "PPSt", "PS", "PA", "Sg", "Zs", "Nope", "1", "2", "0", "1.5", "\"a\"", "\"k\"", "true", "false", "nil"}
 	if len(g.closure) > 0 {
 		atoms = append(atoms, "#", "#", "#")
 	}
@@ -728,6 +728,8 @@ func runC03(c *Ctx) {
 	}{{"nil", 1}, {"Fs(1)", 0}, {"filter(Ints, {# > 1})", 0}, {"map(Ints, {# + 1})", 0}, {"MSI[1]", 0}, {"Ints[\"a\"]", 0},
 		{"My == 1", 0}, {"map(Ints, {nil})", 0}, {"Ff(+U64)", 0}, {"Fi(F64 + 1)", 0}, {"Arr[:]", 0}, {"len(Arr[1:2])", 0}, {"{(1): 2}", 0}, {"MSI[:]", 0}, {"F32 in MII", 0}, {"Any?.x", 1}, {"1 + 2", 2}, {"I8 + 1", 2}, {"F32 * 2", 3}, {"I", 3}, {"Str", 2}, {"B", 1}, {"I", 1},
 		{"Nf(1, 2)", 0}, {"Nf()", 0}, {"Fe(1)", 0}, {"Fe()", 0}, {"Fg(Sg)", 0}, {"Fg(Zs, Sg)", 0}, {"Fg()", 0}, {"Fx(1, \"a\")", 0}, {"Fx()", 0}, {"Fy(1)", 0}, {"Mx(1, 2)", 0}, {"Mx()", 0}, {"Fn()", 0}, {"F2()", 0}, {"Fx(Nope)", 0},
+		{"len(PS)", 0}, {"PS[0]", 0}, {"PS[0:1]", 0}, {"1 in PS", 0}, {"all(PS, {# > 0})", 0}, {"filter(PS, {# > 0})", 0}, {"map(PS, {# + 1})", 0}, {"count(PS, {true})", 0},
+		{"len(PA)", 0}, {"PA[0]", 0}, {"PA[0:1]", 0}, {"1 in PA", 0}, {"any(PA, {# > 0})", 0}, {"none(PA, {# > 9})", 0}, {"one(PA, {# == 0})", 0}, {"PS[0] + PA[1]", 0}, {"len(PS[1:]) + len(PA[:2])", 0},
 		{"B ? Zs : Sg", 0}, {"B ? Sg : Zs", 0}, {"B ? Sg : Sg", 0}, {"Sg.String()", 0}, {"Zs.String()", 0}, {"PPSt.X", 0}, {"PPSt?.Y", 0},
 		{"My + I", 0}, {"I + My", 0}, {"My * 2", 0}, {"2 * My", 0}, {"My - My", 0}, {"My % I", 0}, {"F64 + F64", 0},
 		{"Any in MSI", 0}, {"Any in MII", 0}, {"Any not in MSI", 0}, {"nil in MSI", 0}, {"I in MII", 0}, {"Str in MII", 0},
@@ -1129,7 +1131,11 @@ func c03Oracle(c *Ctx, cs c03Case) {
 	switch cs.expect {
 	case 0:
 		if ty != nil && ty.Kind() != reflect.Interface && (rv.out == nil || reflect.TypeOf(rv.out) != ty) {
-			violateKeyed16(c, Violation{What: "the result's dynamic type differs from the type the checker reported", Key: "c03:dynamic-type-differs:" + c03DynKey(cs.src), Input: in,
+			dk := c03DynKey(cs.src)
+			if ty.Kind() == reflect.Ptr && rv.out != nil && reflect.TypeOf(rv.out) == ty.Elem() && strings.Contains(cs.src, ":") {
+				dk = "slice-through-pointer"
+			}
+			violateKeyed16(c, Violation{What: "the result's dynamic type differs from the type the checker reported", Key: "c03:dynamic-type-differs:" + dk, Input: in,
 				Expect: "a value of type " + ty.String(), Got: fmt.Sprintf("%T", rv.out)})
 		}
 	default:
@@ -1226,6 +1232,8 @@ func c03TypeErrKey(src, rerr string) string {
 		return "retyped-non-literal-argument"
 	case strings.Contains(rerr, "slice of unaddressable array"):
 		return "slice-of-array"
+	case strings.Contains(rerr, "invalid argument for len (type *"):
+		return "len-of-pointer-to-collection"
 	}
 	// not one of the known classes: the raw message is part of the key, so that a sweep shows what it is
 	return "other:" + firstLine16(rerr)
